@@ -213,7 +213,14 @@ func yamlTranslateNode(node *yaml.Node) (any, error) {
 				return nil, err
 			}
 
-			ret[node.Content[i].Value] = v2
+			key := node.Content[i]
+			if key.Kind == yaml.AliasNode && key.Alias != nil {
+				// An alias used as a key stands for the scalar it refers to,
+				// not for the anchor's name.
+				key = key.Alias
+			}
+
+			ret[key.Value] = v2
 		}
 
 		return ret, nil
